@@ -6,6 +6,8 @@ import os
 INJECT = {
     "src/varint.rs": "varint_h.rs",
     "src/metadata.rs": "metadata_h.rs",
+    "src/block.rs": ["block_h.rs", ("ac_model.rs", "verif_ac")],
+    "src/reader/reader_cursor.rs": "cursor_h.rs",
 }
 
 GLOBAL_ASSUMPTIONS = [
@@ -14,6 +16,12 @@ GLOBAL_ASSUMPTIONS = [
     "format!/panic message arguments are not evaluated (Kani assert override)",
     "every claim holds only inside the bounds listed per harness; unwinding assertions are ON so a too-small bound is reported",
 ]
+
+
+def inject_list(kits):
+    if isinstance(kits, str):
+        kits = [kits]
+    return [(k, "verif_h") if isinstance(k, str) else k for k in kits]
 
 
 def find_grenad_047():
@@ -63,6 +71,35 @@ HARNESSES = [
       stubs=["CountSrc: counting Read+Seek over a byte slice (harness kit)"],
       bounds="file length 22..=48, any content ending in a valid trailer"),
 ]
+
+# ------------------------------------------------------------------------------------------- L2 block layer
+_BLOCK_FUNCS = ["BlockWriter::insert", "BlockWriter::finish", "Block::new", "Block::read_from", "compression::decompress(None)",
+                "std Read::read_to_end/Take over &[u8]", "Block::entry_at", "varint_decode32", "varint_encode32"]
+_BLOCK_BOUNDS = ("n <= 3 entries; keys symbolic length 0..=2 strictly ascending; values symbolic length 0..=2; probe symbolic "
+                 "length 0..=3; every abstract pre-position (unpositioned, on entry i, End); interval %d; unwind 10")
+_OPFN = {"current": "BlockCursor::current", "first": "BlockCursor::move_on_first", "last": "BlockCursor::move_on_last",
+         "next": "BlockCursor::move_on_next", "prev": "BlockCursor::move_on_prev",
+         "ge": "BlockCursor::move_on_key_greater_than_or_equal_to", "le": "BlockCursor::move_on_key_lower_than_or_equal_to"}
+for _op, _props, _ivs in [("current", ["C03"], [2]), ("first", ["C03"], [1, 2, 8]), ("last", ["C03", "C01"], [1, 2, 8]),
+                          ("next", ["C03", "C01"], [1, 2, 8]), ("prev", ["C03", "C01"], [1, 2, 8]),
+                          ("ge", ["C02", "C03"], [1, 2, 8]), ("le", ["C02", "C03"], [1, 2, 8])]:
+    for _iv in _ivs:
+        _pre = "c02" if _op in ("ge", "le") else "c03"
+        HARNESSES.append(H("block::verif_h::%s_block_%s_i%d" % (_pre, _op, _iv), _props,
+                           tier="quick" if _iv == 2 else "thorough", kind="D+S", layer="L2", timeout=1500,
+                           decides="AC ⊑ BlockCursor for `%s`: from every abstract pre-state of a real block, the real result equals the "
+                                   "array-cursor model's (exact ceiling/floor/adjacent entry or None) and the post-position matches" % _op,
+                           functions=_BLOCK_FUNCS + [_OPFN[_op]], bounds=_BLOCK_BOUNDS % _iv,
+                           outside="keys > 2 bytes, > 3 entries per block, intervals other than 1/2/8"))
+for _iv in (1, 2, 8):
+    HARNESSES.append(H("block::verif_h::c01_block_new_i%d" % _iv, ["C01", "C09", "C14"], tier="quick" if _iv == 2 else "thorough",
+                       kind="D", layer="L2", timeout=1500,
+                       decides="Block::new over `len ‖ block` written by BlockWriter recovers payload size, the offset table (every "
+                               "interval-th entry, first 0) and every entry via entry_at with exact next offsets",
+                       functions=_BLOCK_FUNCS, bounds=_BLOCK_BOUNDS % _iv))
+HARNESSES.append(H("block::verif_h::c17_block_borrows", ["C17"], kind="H", layer="L2", timeout=1500,
+                   decides="slices returned by the >=-seek (incl. the 'static transmute) lie inside the live block buffer and are readable",
+                   functions=_BLOCK_FUNCS + [_OPFN["ge"]], bounds=_BLOCK_BOUNDS % 2))
 
 
 def harnesses_for(pid, tier, seed=0):
@@ -148,3 +185,98 @@ if __name__ == "__main__":
     import sys
     json.dump(manifest(), open(os.path.join(os.path.dirname(__file__), "MANIFEST.json"), "w"), indent=1)
     print("MANIFEST.json written")
+
+
+# ------------------------------------------------------------------------------------------- L3 glue (generated harnesses)
+LAYOUTS = {  # name -> (const, levels, n entries, description)
+    "e0": ("LAY_EMPTY0", 0, 0, "empty file, levels 0"),
+    "e2": ("LAY_EMPTY2", 2, 0, "empty file, levels 2"),
+    "l0s": ("LAY_L0_1", 0, 1, "levels 0: root -> d(e0)"),
+    "l0a": ("LAY_L0_22", 0, 4, "levels 0: root -> d(e0,e1) d(e2,e3)"),
+    "l0b": ("LAY_L0_121", 0, 4, "levels 0: root -> d(e0) d(e1,e2) d(e3)"),
+    "l1": ("LAY_L1_211", 1, 4, "levels 1: root -> l1 -> d(e0,e1) d(e2) d(e3)"),
+    "l2a": ("LAY_L2_21_2", 2, 5, "levels 2: root -> l1 -> A[d(e0,e1) d(e2)] B[d(e3,e4)]"),
+    "l2b": ("LAY_L2_1_12", 2, 4, "levels 2: root -> l1 -> A[d(e0)] B[d(e1) d(e2,e3)]"),
+    "l2c": ("LAY_L2_2_2_1", 2, 5, "levels 2: root -> l1 -> A[d(e0,e1)] B[d(e2,e3)] C[d(e4)]"),
+    "l3": ("LAY_L3", 3, 4, "levels 3: root -> l1 -> P[A[d(e0)] B[d(e1)]] Q[C[d(e2) d(e3)]]"),
+}
+
+_OPRS = {"first": "Op::First", "last": "Op::Last", "next": "Op::Next", "prev": "Op::Prev", "reset": "Op::Reset",
+         "current": "Op::Current", "clone": "Op::CloneSwitch"}
+_FORK = {"first": "F_FIRST", "last": "F_LAST", "next": "F_NEXT", "prev": "F_PREV", "current": "F_CURRENT"}
+_ABBR = {"first": "F", "last": "L", "next": "n", "prev": "p", "reset": "R", "current": "c", "clone": "K"}
+
+
+def _op_rs(op):
+    if op in _OPRS:
+        return _OPRS[op]
+    kind, arg = op.split(":")
+    if kind == "fork":
+        return "Op::Fork(%s)" % _FORK[arg]
+    sel = "Q_SYM" if arg == "sym" else arg
+    return "Op::%s(%s)" % ({"ge": "Ge", "le": "Le", "eq": "Eq"}[kind], sel)
+
+
+def _op_abbr(op):
+    if op in _ABBR:
+        return _ABBR[op]
+    kind, arg = op.split(":")
+    if kind == "fork":
+        return "Y" + _ABBR[arg]
+    return {"ge": "G", "le": "E", "eq": "Q"}[kind] + ("s" if arg == "sym" else arg)
+
+
+def schema_harness(prefix, layout, ops, minlen=1, maxlen=1, probe_max=2, unwind=None):
+    """-> (fn name, rust source)"""
+    name = "%s_%s_%s" % (prefix, layout, "".join(_op_abbr(o) for o in ops))
+    const, levels, n, _ = LAYOUTS[layout]
+    if unwind is None:
+        unwind = max(9, len(ops) + 2)  # MAXE + 1 = 9 for the table loops; ops loop
+    src = "glue_harness!(%s, %d, {\n    let ops = [%s];\n    run_schema(%s, &ops, %d, %d, %d);\n});\n" % (
+        name, unwind, ", ".join(_op_rs(o) for o in ops), const, minlen, maxlen, probe_max)
+    return name, src
+
+
+GLUE_FUNCS = ["ReaderCursor::new/reset/current/move_on_first/move_on_last/move_on_next/move_on_prev",
+              "ReaderCursor::move_on_key_greater_than_or_equal_to/_lower_than_or_equal_to/_equal_to",
+              "ReaderCursor::next_block_from_index/prev_block_from_index", "IndexBlockCursor::iter_index_blocks",
+              "IndexBlockCursor::recursive_index_block", "IndexBlockCursor::initial_index_blocks", "Clone for ReaderCursor",
+              "Reader::into_cursor"]
+GLUE_STUBS = ["Block::new -> ac_block_new (abstract block = id; discharged by block::verif_h::c01_block_new_*)",
+              "BlockCursor::{current,move_on_first,move_on_last,move_on_next,move_on_prev,move_on_key_lower_than_or_equal_to,"
+              "move_on_key_greater_than_or_equal_to} -> array-cursor model ac_step (discharged against the real BlockCursor over "
+              "real blocks by block::verif_h::c0{2,3}_block_*)",
+              "source = ModelFile (Read+Seek returning the seek position; counts loads/seeks)"]
+
+GEN_CURSOR = []  # (fn name, source)
+
+
+def G(prefix, layout, ops, props, tier="quick", mem="light", timeout=1500, **kw):
+    name, src = schema_harness(prefix, layout, ops, **{k: kw.pop(k) for k in ("minlen", "maxlen", "probe_max", "unwind") if k in kw})
+    GEN_CURSOR.append((name, src))
+    HARNESSES.append(H("reader::reader_cursor::verif_h::" + name, props, tier=tier, mem=mem, timeout=timeout, kind="H", layer="L3",
+                       replay="native",
+                       decides="history [%s] on a fresh cursor over %s: every result equals the entry determined by the sorted content "
+                               "and the logical position; loads per op <= 2*(levels+2), each preceded by one absolute seek" % (
+                                   ", ".join(ops), LAYOUTS[layout][3]),
+                       functions=GLUE_FUNCS, stubs=GLUE_STUBS, schema=ops, layout=layout,
+                       bounds="layout fixed (fan-out <= 3, <= 2 entries per data block), keys symbolic 1 byte strictly ascending, "
+                              "one symbolic probe of length 0..=2; unwind from table size", **kw))
+    return name
+
+
+# C03 quick family: the block-crossing patterns on layouts with two blocks at a non-root level
+G("c03_hist", "l2a", ["first", "first", "next", "next", "next", "current", "first", "current"], ["C03", "C16"])
+G("c03_hist", "l2a", ["last", "last", "prev", "prev", "current", "last"], ["C03", "C16"])
+G("c03_hist", "l2a", ["first", "next", "next", "next", "first", "ge:4"], ["C03", "C16"])
+G("c03_hist", "l2a", ["last", "prev", "prev", "last", "le:0"], ["C03", "C16"])
+G("c03_hist", "l2a", ["ge:sym", "ge:sym", "next", "next", "ge:sym"], ["C03", "C02", "C16"])
+G("c03_hist", "l2a", ["first", "next", "clone", "next", "next", "fork:next"], ["C03", "C16"])
+G("c03_hist", "l2a", ["last", "clone", "prev", "prev", "fork:prev", "reset", "next"], ["C03", "C16"])
+
+
+def generate(kit_dst):
+    with open(os.path.join(kit_dst, "cursor_gen.rs"), "w") as f:
+        f.write("// generated by registry.py from the schema table\n")
+        for _, src in GEN_CURSOR:
+            f.write(src)
